@@ -140,6 +140,7 @@ func main() {
 			writeKeeper(*repo, m, filepath.Join(*genDir, modules[m].typesMod+".v"), filepath.Join(*genDir, modules[m].keeperMod+".v"))
 		}
 		writeKeys(*repo, filepath.Join(*genDir, "GeneratedKeys.v"))
+		writeDenom(*repo, filepath.Join(*genDir, "GeneratedDenom.v"))
 		for _, m := range []string{"wrkante", "bcnante", "entante"} {
 			writeKeeper(*repo, m, "", filepath.Join(*genDir, modules[m].keeperMod+".v"))
 		}
